@@ -48,6 +48,15 @@ def dbStep (E : Impl.Env) (db : Impl.Db) (op : String) : Impl.Db × String :=
     let l : Impl.SList := ⟨unhex t, 28 + ss.length * natArg size, 0, natArg size, [], ss⟩
     let db' := db.appendList l
     (db', "ok " ++ hex (Impl.encDb db'))
+  | [op, t, size, hdr, sigs] =>
+    -- "LH" / "DH": AppendList / AppendDatabase of a hand-built well-formed list with a signature header
+    if op == "LH" || op == "DH" then
+      let ss := parseSigs sigs
+      let h := unhex hdr
+      let l : Impl.SList := ⟨unhex t, 28 + h.length + ss.length * natArg size, h.length, natArg size, h, ss⟩
+      let db' := db.appendList l
+      (db', "ok " ++ hex (Impl.encDb db'))
+    else (db, "bad-op")
   | ["LM", t, sigs] =>
     -- a list built through the list-level API (errors of individual AppendBytes calls ignored)
     let l := (parseSigs sigs).foldl (fun (l : Impl.SList) s =>
